@@ -109,6 +109,38 @@ theorem older_roots_survive_writes (c : Cache) (d : Disk) (hcs : Consistent c d)
     (hres : Resolvable d r) : Resolvable (applyWrites c d ws) r :=
   resolvable_extends (writes_extends ws d hcs).1 hres
 
+/-- The second sentence of the property, spelled out: the process dies after
+    `k` physical writes of a commit (any `k`, any reachable state, any root).
+    In the restarted process (empty caches) every hash present on disk is fully
+    resolvable, and every root resolvable before the commit began still is,
+    with the disk only extended. -/
+theorem crash_during_commit (eD eC : Hash) (s s1 s2 : St) (hr : Reach eD eC s) (root : Hash) (k : Nat)
+    (h1 : step eD eC s (.commit root (some k)) = some s1) (h2 : step eD eC s1 .die = some s2) :
+    s2.cache = [] ∧ (∀ h, Has s2.disk h → Resolvable s2.disk h) ∧
+    (∀ r, Resolvable s.disk r → Resolvable s2.disk r) ∧ Extends s.disk s2.disk := by
+  have r1 : Reach eD eC s1 := Reach.step (.commit root (some k)) hr trivial h1
+  have r2 : Reach eD eC s2 := Reach.step .die r1 trivial h2
+  have e1 := step_extends (reach_inv hr) h1
+  have e2 := step_extends (reach_inv r1) h2
+  refine ⟨?_, (reach_inv r2).allRes, fun r hres => resolvable_extends (extends_trans e1 e2) hres, extends_trans e1 e2⟩
+  simp only [step, Option.some.injEq] at h2
+  subst h2; rfl
+
+/-- a commit (successful or refused at any write) never changes what the live
+    node database answers for a hash: nothing is dropped from the cache before
+    it is on disk. -/
+theorem live_reads_stable_across_commit (s : St) (root : Hash) (failAt : Option Nat) (fuel : Nat)
+    (out : CommitOut) (hi : Inv s) (hc : commit s root failAt fuel = some out) (h : Hash) (n : DNode)
+    (hn : liveLookup s h = some n) : liveLookup out.st h = some n :=
+  commit_live_stable hi hc h n hn
+
+/-- the fuel of the walk only decides termination, never the result. -/
+theorem walk_fuel_irrelevant (c : Cache) (f k : Nat) (h : Hash) (ws : List Hash)
+    (hw : walk c f h = some ws) : walk c (f + k) h = some ws := by
+  induction k with
+  | zero => exact hw
+  | succ k ih => exact walk_fuel_mono c (f + k) h ws ih
+
 /-! ## complete: what was readable before the commit is readable from disk alone -/
 
 /-- DESIGN `commit_complete`: after a commit that reported success the root
@@ -207,6 +239,10 @@ example : Resolvable (applyWrites exS5.cache exS5.disk [1, 2, 3]) 3 ∧ ¬ Has (
 example : ∃ out, commit exS5 5 none 6 = some out ∧ (liveLookup exS5 5).isSome = true ∧ out.st.cache = [] ∧
     view (diskGet out.st.disk) 6 5 = some (5, 65) := by
   refine ⟨_, rfl, by decide, by decide, by decide⟩
+
+/-- hypotheses of `crash_during_commit`: the first write of the commit of `5` is refused, then the process dies -/
+example : ∃ s1 s2, step 0 0 exS5 (.commit 5 (some 0)) = some s1 ∧ step 0 0 s1 .die = some s2 ∧ s2.cache = [] :=
+  ⟨_, _, rfl, rfl, rfl⟩
 
 /-- hypotheses of `failed_commit_keeps_cache`: the first physical write is refused -/
 example : ∃ out, commit exS5 5 (some 0) 6 = some out ∧ out.ok = false ∧ out.written = [] :=
